@@ -15,8 +15,10 @@ META = {
              "the same mass and first moment and a central inertia that is positive definite with the triangle inequalities (C47_body_physical) - i.e. the conditions the compiler "
              "tests hold exactly over R. Tied by correspondence (not proved): the Python functions agree with the model run at binary64 (tolerance 2^-30 scaled) on the thetas of the "
              "run: random and corner points of [-3,3]^10 for all four functions and the round trip, and points of [-20,20]^10 for pi_from_theta only. The clause 'compiles with the "
-             "same mass properties' is observed, not proved: the values written by apply_body_theta_inertia (run on an MjSpec container of the installed wheel) are compiled by the "
-             "tree's own compiler through the mjSpec C API and the compiled body_mass / body_ipos / body_iquat / body_inertia must reproduce pi (mass, h = m*ipos, I_bar). "
+             "same mass properties' is observed, not proved: apply_body_theta_inertia runs on MjSpec containers of the installed wheel covering 9 spec variants (body with a massful geom / "
+             "explicit inertial + massful geom / explicit inertial only) x (compiler inertiafromgeom false / true / auto); the state it leaves (compiler.inertiafromgeom, explicitinertial, mass, ipos, "
+             "fullinertia, the geom) is rebuilt through the mjSpec C API and compiled by the tree's own compiler, and the compiled body_mass / body_ipos / body_iquat / body_inertia must reproduce pi "
+             "(mass, h = m*ipos, I_bar); the same is checked with the wheel as external compiler, and theta_inertia_from_body on the resulting spec must read theta back. "
              "Not covered: IEEE rounding and exp overflow/underflow (for |theta_i| beyond a few tens the float results lose positive definiteness by cancellation and the compiler "
              "rejects central inertias with an eigenvalue below mjEPS = 1e-14: both are outside the theorems, and the compile clause is only exercised inside [-3,3]^10); "
              "numpy.linalg.cholesky is modelled by the textbook recurrence, not derived from LAPACK."),
@@ -109,7 +111,12 @@ def run(ctx):
     if ctx.replay and ctx.replay.get("case", {}).get("theta"):
         thetas = [(ctx.replay["case"]["theta"], ctx.replay["case"].get("kind", "box"))] + thetas[:5]
     import subprocess
-    r = subprocess.run([PY, os.path.join(DRV, "c47_sysid.py"), ctx.repo], input=json.dumps({"thetas": [t for t, _ in thetas]}),
+    # compile clause: every box theta gets one of 9 spec variants (body with massful geom / inertial+geom / inertial
+    # only) x (compiler inertiafromgeom false / true / auto), cycling so that the smallest cases cover all nine
+    variants = [i % 9 for i in range(len(thetas))]
+    if ctx.replay and ctx.replay.get("case", {}).get("theta"):
+        variants[0] = int(ctx.replay["case"].get("variant", 0))
+    r = subprocess.run([PY, os.path.join(DRV, "c47_sysid.py"), ctx.repo], input=json.dumps({"thetas": [t for t, _ in thetas], "variants": variants}),
                        capture_output=True, text=True, timeout=900)
     if r.returncode != 0:
         ctx.broken.append(("correspondence", "python driver c47_sysid.py failed", (r.stderr or r.stdout)[-1500:]))
@@ -122,16 +129,31 @@ def run(ctx):
     sig = {"site": "model_modifier.log_cholesky"}
     nviol = 0
 
+    cur = {"variant": 0, "spec": None}
+
     def viol(th, what, expected, observed, theorem, site=None):
         nonlocal nviol
         nviol += 1
         if nviol <= 6:
-            ctx.violation("impl_violation", {"theta": th, "kind": "box", "what": what}, expected=expected, observed=observed,
+            ctx.violation("impl_violation", {"theta": th, "kind": "box", "what": what, "variant": cur["variant"], "spec": cur["spec"]}, expected=expected, observed=observed,
                           theorem=theorem, signature={"site": site or sig["site"], "class": what})
 
     # ---------------------------------------------------------------- oracle on implementation output
     body_lines, body_idx = [], []
+    variant_count = {}
+    nreadback_loose = [0]
+
+    def same_mass_properties(pi, cm, cpos, cq, cin):
+        R = quat2mat(cq)
+        full = [[sum(R[i][k] * cin[k] * R[j][k] for k in range(3)) for j in range(3)] for i in range(3)]
+        c2 = sum(x * x for x in cpos)
+        Ib = [[full[i][j] + cm * ((c2 if i == j else 0.0) - cpos[i] * cpos[j]) for j in range(3)] for i in range(3)]
+        sc = max(abs(x) for x in pi[4:13])
+        return (close(cm, pi[0], 1e-12) and all(close(cm * cpos[i], pi[1 + i], 1e-9, abs(pi[0])) for i in range(3)) and
+                all(abs(Ib[i][j] - pi[4 + 3 * i + j]) <= 1e-5 * sc for i in range(3) for j in range(3)))
+
     for idx, ((th, kind), rec) in enumerate(zip(thetas, out)):
+        cur["variant"], cur["spec"] = variants[idx], rec.get("variant")
         if "pi" not in rec or len(rec["pi"]) != 13:
             viol(th, "pi_from_theta_failed", "13 values", rec.get("pi_err", rec.get("pi")), "C47_mass_positive")
             continue
@@ -173,8 +195,26 @@ def run(ctx):
             continue
         if not (b[0] == m and all(close(b[0] * b[1 + i], pi[1 + i], 1e-12, abs(m)) for i in range(3))):
             viol(th, "body_mass_or_com_differs", [m] + pi[1:4], b[:4], "C47_body_physical")
-        body_lines.append(" ".join(float(v).hex() for v in b))
+        body_lines.append("%d %d %d " % (rec["inertiafromgeom_after"], 1 if rec["explicitinertial"] else 0, 1 if rec["variant"]["has_geom"] else 0) +
+                          " ".join(float(v).hex() for v in b))
         body_idx.append(idx)
+        vkey = "%s/ifg=%s" % (rec["variant"]["body"], rec["variant"]["inertiafromgeom_xml"])
+        variant_count[vkey] = variant_count.get(vkey, 0) + 1
+        # same clause with the wheel as external compiler + read-back through theta_inertia_from_body
+        wc = rec.get("wheel_compiled")
+        if wc is None:
+            viol(th, "body_does_not_compile", "spec compiles", rec.get("wheel_compile_err"), "C47_body_physical", site="apply_body_theta_inertia")
+        else:
+            if not same_mass_properties(pi, wc[0], wc[1:4], wc[4:8], wc[8:11]):
+                viol(th, "compiled_mass_properties_differ", {"m": pi[0], "h": pi[1:4], "I_bar": pi[4:13], "spec": rec["variant"], "compiler": "wheel (external)"},
+                     {"body_mass": wc[0], "body_ipos": wc[1:4], "body_iquat": wc[4:8], "body_inertia": wc[8:11]}, "C47_body_physical", site="apply_body_theta_inertia")
+            tfb = rec.get("theta_from_body")
+            # read back through the compiled model: limited by mjuu_eig3 (~1.4e-6 rad) times the conditioning of J
+            tolfb = 1e-5 * kappa_F(J) ** 0.5 + 1e-6
+            if tfb is None or not all(abs(x - y) <= tolfb * (1 + abs(y)) for x, y in zip(tfb, th)):
+                nreadback_loose[0] += 1
+                if tfb is None or not all(abs(x - y) <= 0.05 * (1 + abs(y)) for x, y in zip(tfb, th)):
+                    viol(th, "theta_read_back_from_body_differs", th, tfb, "C47_roundtrip", site="apply_body_theta_inertia")
 
     # ---------------------------------------------------------------- compile through the tree's compiler
     ncompiled = 0
@@ -186,6 +226,7 @@ def run(ctx):
         else:
             for idx, line in zip(body_idx, lines):
                 th = thetas[idx][0]; pi = out[idx]["pi"]
+                cur["variant"], cur["spec"] = variants[idx], out[idx].get("variant")
                 tok = line.split()
                 if tok[0] != "ok":
                     viol(th, "body_does_not_compile", "spec compiles", line, "C47_body_physical", site="apply_body_theta_inertia")
@@ -236,6 +277,8 @@ def run(ctx):
     ctx.cov["samples"] = [{"theta": thetas[i][0], "kind": thetas[i][1]} for i in (5, 80, len(thetas) - 30)]
     ctx.cov["correspondence_disagreements"] = len(fails)
     ctx.cov["support"]["compiled_bodies"] = ncompiled
+    ctx.cov["support"]["compiled_bodies_by_spec_variant"] = variant_count
+    ctx.cov["support"]["theta_read_back_outside_tight_tolerance"] = nreadback_loose[0]
     ctx.cov["support"]["oracle_violations"] = nviol
     ctx.cov["support"]["implementation_file"] = res["file"]
     ctx.cov["explanation"] = ("6 theorems over R for every theta; model tied to model_modifier.py by numeric agreement on %d thetas (%d with all functions, round trip and compile by the tree's compiler: %d compiled)"
